@@ -200,6 +200,14 @@ def explore(E, con, fi, res, body_runner=None):
             old_heap = ctx.snapshot()
             tr_old_len = ctx.trlen
             ctx.ghost["entry"] = (old_heap, tr_old_len, bound)
+            if con.published is not None:
+                def hook(what, _ctx=ctx, _bound=bound, _old=old_heap, _tr=tr_old_len):
+                    sp = Spec(_ctx, _old, _ctx.snapshot())
+                    sp.mode = "prove"
+                    _attach_trace(sp, _ctx, _tr)
+                    for lab, f in eval_clause(con.published, sp, views_of(sp, _bound, sp.new_heap)).items():
+                        _ctx.oblige("%s/published[%s]" % (short(con.key), lab), f, kind="invariant", meta={"after": what})
+                ctx.store_hook = hook
             try:
                 if body_runner is not None:
                     value = body_runner(I, fi, bound)
